@@ -66,7 +66,7 @@ def given_meta(b, m):
 class C05(Prop):
     ID = "C05"
     MODULE = "AwProofs.Props.C05"
-    THEOREMS = ["AwProofs.C05.create_existing_rejected_peewee", "AwProofs.C05.create_existing_rejected_sqlite", "AwProofs.C05.create_listed_memory", "AwProofs.C05.create_listed_peewee", "AwProofs.C05.create_listed_sqlite", "AwProofs.C05.delete_removes_bucket_and_events_memory", "AwProofs.C05.delete_removes_bucket_and_events_peewee", "AwProofs.C05.delete_removes_bucket_and_events_sqlite", "AwProofs.C05.describe_is_view_memory", "AwProofs.C05.describe_is_view_peewee", "AwProofs.C05.describe_is_view_sqlite", "AwProofs.C05.listing_is_view_memory", "AwProofs.C05.listing_is_view_peewee", "AwProofs.C05.listing_is_view_sqlite", "AwProofs.C05.listing_keys_unique_memory", "AwProofs.C05.listing_keys_unique_peewee", "AwProofs.C05.listing_keys_unique_sqlite", "AwProofs.C05.missing_raises_and_unchanged_memory", "AwProofs.C05.missing_raises_and_unchanged_peewee", "AwProofs.C05.missing_raises_and_unchanged_sqlite", "AwProofs.C05.peewee_keys_coherent", "AwProofs.C05.peewee_keys_coherent_reachable", "AwProofs.C05.recreate_is_empty_memory", "AwProofs.C05.recreate_is_empty_peewee", "AwProofs.C05.recreate_is_empty_sqlite", "AwProofs.C05.stored_meta_memory", "AwProofs.C05.update_empty_rejected_sqlite", "AwProofs.C05.update_fields_memory", "AwProofs.C05.update_fields_sql", "AwProofs.C05.update_none_unchanged_memory", "AwProofs.C05.update_none_unchanged_sql", "AwProofs.C05.update_only_supplied_memory", "AwProofs.C05.update_only_supplied_peewee", "AwProofs.C05.update_only_supplied_sqlite"]
+    THEOREMS = ["AwProofs.C05.handle_cache_coherent", "AwProofs.C05.listing_preserved_sqlite", "AwProofs.C05.create_existing_rejected_peewee", "AwProofs.C05.create_existing_rejected_sqlite", "AwProofs.C05.create_listed_memory", "AwProofs.C05.create_listed_peewee", "AwProofs.C05.create_listed_sqlite", "AwProofs.C05.delete_removes_bucket_and_events_memory", "AwProofs.C05.delete_removes_bucket_and_events_peewee", "AwProofs.C05.delete_removes_bucket_and_events_sqlite", "AwProofs.C05.describe_is_view_memory", "AwProofs.C05.describe_is_view_peewee", "AwProofs.C05.describe_is_view_sqlite", "AwProofs.C05.listing_is_view_memory", "AwProofs.C05.listing_is_view_peewee", "AwProofs.C05.listing_is_view_sqlite", "AwProofs.C05.listing_keys_unique_memory", "AwProofs.C05.listing_keys_unique_peewee", "AwProofs.C05.listing_keys_unique_sqlite", "AwProofs.C05.missing_raises_and_unchanged_memory", "AwProofs.C05.missing_raises_and_unchanged_peewee", "AwProofs.C05.missing_raises_and_unchanged_sqlite", "AwProofs.C05.peewee_keys_coherent", "AwProofs.C05.peewee_keys_coherent_reachable", "AwProofs.C05.recreate_is_empty_memory", "AwProofs.C05.recreate_is_empty_peewee", "AwProofs.C05.recreate_is_empty_sqlite", "AwProofs.C05.stored_meta_memory", "AwProofs.C05.update_empty_rejected_sqlite", "AwProofs.C05.update_fields_memory", "AwProofs.C05.update_fields_sql", "AwProofs.C05.update_none_unchanged_memory", "AwProofs.C05.update_none_unchanged_sql", "AwProofs.C05.update_only_supplied_memory", "AwProofs.C05.update_only_supplied_peewee", "AwProofs.C05.update_only_supplied_sqlite"]
     MODEL_NEEDS_IMPL = True
     WORKERS = 10
     LEVEL_TEXT = "Lean 4 theorems on the three backend models: create/update/delete/lookup act on the view as on a keyed map"
